@@ -181,3 +181,21 @@ Definition prop_c02_b (quota : nat -> nat) (n : nat) (tr : list event) : bool :=
   && list_eqb (map e_seq (delivs tr)) (seq 0 (length (delivs tr)))
   && forallb (fun t => list_eqb (map e_idx (of_thread t (delivs tr))) (seq 0 (quota t))) (seq 0 n)
   && forallb (fun e => Nat.ltb (e_tid e) n) (delivs tr).
+
+(* ---- sequential (whole-message) schedules ------------------------------------------------------
+   [solo_ok]: a thread running the skeleton alone never blocks on itself: it locks a mutex only when it does
+   not hold it, unlocks only what it holds, and holds nothing when the call returns. *)
+Fixpoint wf_from (sk : list instr) (hl hm : bool) : bool :=
+  match sk with
+  | [] => negb hl && negb hm
+  | Lock L :: r => negb hl && wf_from r true hm
+  | Lock M :: r => negb hm && wf_from r hl true
+  | Unlock L :: r => hl && wf_from r false hm
+  | Unlock M :: r => hm && wf_from r hl false
+  | _ :: r => wf_from r hl hm
+  end.
+Definition solo_ok (sk : list instr) : bool := wf_from sk false false.
+(* the schedule that runs whole messages one after the other, in the given order of (thread, index):
+   one activation of a skeleton with a single Work takes length sk + 3 steps, plus the return *)
+Definition whole_msgs (sk : list instr) (order : list (nat * nat)) : list nat :=
+  flat_map (fun x => repeat (fst x) (length sk + 4)) order.
